@@ -179,25 +179,35 @@ func newDecoratorController(resources *dynamicdiscovery.ResourceMap, dynClient *
 	}()
 
 	for _, parent := range dc.Spec.Resources {
-		informer, err := dynInformers.Resource(parent.APIVersion, parent.Resource)
-		if err != nil {
-			return nil, fmt.Errorf("can't create informer for parent resource: %w", err)
-		}
 		groupVersion, err := schema.ParseGroupVersion(parent.APIVersion)
 		if err != nil {
 			return nil, fmt.Errorf("can't parse parent resource groupVersion: %w", err)
+		}
+		if c.parentInformers.Get(groupVersion.WithResource(parent.Resource)) != nil {
+			// The resource is listed more than once; one subscription serves all
+			// entries (and is the only one Stop() and the clean-up above can close).
+			continue
+		}
+		informer, err := dynInformers.Resource(parent.APIVersion, parent.Resource)
+		if err != nil {
+			return nil, fmt.Errorf("can't create informer for parent resource: %w", err)
 		}
 		c.parentInformers.Set(groupVersion.WithResource(parent.Resource), informer)
 	}
 
 	for _, child := range dc.Spec.Attachments {
-		informer, err := dynInformers.Resource(child.APIVersion, child.Resource)
-		if err != nil {
-			return nil, fmt.Errorf("can't create informer for child resource: %w", err)
-		}
 		groupVersion, err := schema.ParseGroupVersion(child.APIVersion)
 		if err != nil {
 			return nil, fmt.Errorf("can't parse child resource groupVersion: %w", err)
+		}
+		if c.childInformers.Get(groupVersion.WithResource(child.Resource)) != nil {
+			// The resource is listed more than once; one subscription serves all
+			// entries (and is the only one Stop() and the clean-up above can close).
+			continue
+		}
+		informer, err := dynInformers.Resource(child.APIVersion, child.Resource)
+		if err != nil {
+			return nil, fmt.Errorf("can't create informer for child resource: %w", err)
 		}
 		c.childInformers.Set(groupVersion.WithResource(child.Resource), informer)
 	}
